@@ -174,6 +174,17 @@ func (p *Policy) toGoShared() seccomp.Policy {
 							sg.NamesWithCondtions[k].Conditions = sg.NamesWithCondtions[j].Conditions
 							break
 						}
+						// a caller who cuts a shorter list out of a longer one: conds[:n] for one entry, conds for the
+						// other — both slices start at the same element
+						a, b := g.WithConds[j].Conds, nc.Conds
+						if len(a) > 0 && len(a) < len(b) && sameConds(a, b[:len(a)]) {
+							sg.NamesWithCondtions[j].Conditions = sg.NamesWithCondtions[k].Conditions[:len(a)]
+							break
+						}
+						if len(b) < len(a) && sameConds(b, a[:len(b)]) {
+							sg.NamesWithCondtions[k].Conditions = sg.NamesWithCondtions[j].Conditions[:len(b)]
+							break
+						}
 					}
 				}
 			}
